@@ -309,6 +309,39 @@ class K3TicketEngine(Engine):
 
 ENGINE = K3TicketEngine()
 
+
+# ---------------------------------------------------------------------------------- finding F-ticket-lap
+# 13 producers pass claim_run's window check on an empty cap-64 channel before any of them claims
+# (round-robin prefix rr6 = closed, receivers_alive x2, run_cap, g_tail, progress), then each claims
+# 64 tickets: tickets of chunk 3 and of chunk 6 (both table entry 0) are owned at the same time.
+_LAP_PRODUCERS = " | ".join(["P: tsb64"] * 13)
+LAP_WITNESS = "S 64 5 12 rr6 | %s | C: trb64*40" % _LAP_PRODUCERS
+LAP_CLAUSE = "C05:table-lap-wedge"
+
+
+class K3TicketLapEngine(K3TicketEngine):
+    """monitor-only search engine for the chunk-table wedge (no model side: the safety model accepts
+    these executions; what fails is termination)"""
+    name = "k3ticket.lap"
+    model_free = True
+
+    def n_cases(self, tier):
+        return 0
+
+    def corpus(self):
+        # the same race with too few producers to reach two table laps: must terminate
+        return ["S 64 5 6 rr6 | %s | C: trb64*12" % " | ".join(["P: tsb64"] * 4)]
+
+    def gen(self, rng, tier):
+        return self.corpus()[0]
+
+    def monitor(self, line, out):
+        hits = K3TicketEngine.monitor(self, line, out)
+        return [(LAP_CLAUSE if c == "C05:step-limit" else c, d) for c, d in hits]
+
+
+LAP_ENGINE = K3TicketLapEngine()
+
 # evidence keys of the D2/D3 tie (merged into the coverage record just before it is written)
 _STATS = {"traces": 0, "events": 0, "schedules": 0, "skeleton_functions": 0,
           "cas_events": 0, "retire_events": 0, "spin_events": 0, "skip_stores": 0}
@@ -358,7 +391,14 @@ _ASSUME = [
     "Shared::drop (frees the residue) touches no atomics and is not a model step; the residue is `buffered` in the final state",
 ]
 
+_LAP_INFO = {"name": "E-TICKET search (k3ticket.lap)", "path": "vlib/engines_k3ticket.py, harness/sched/src/bin/{k3ticket,scen}.rs",
+             "kind": "scheduler search with a forced round-robin prefix on the real mpsc::bounded_v3 (no theorem: the K3 ticket model "
+                     "proves safety only; this engine carries the replayable witness of finding F-ticket-lap)"}
+
 PROPS = {
+    "C05": {"engines": [LAP_ENGINE], "assumptions": _ASSUME[:1], "engine_info": _LAP_INFO,
+            "witness": {"F-ticket-lap": (LAP_ENGINE, LAP_WITNESS, LAP_CLAUSE)},
+            "covers": "mpsc::bounded_v3 chunk-table reuse: no theorem (safety-only K3 model); known finding F-ticket-lap (table entry advanced past a live ticket wedges the channel) replayed on the real code"},
     "C01": {"engines": [ENGINE], "assumptions": _ASSUME, "engine_info": _INFO,
             "covers": "K3 mpsc::bounded_v3 (try_send, try_send_batch via claim_run/resolve_run, try_recv, try_recv_batch via deq_run), all schedules and producer counts: accepted = received ++ buffered in ticket order, NoDup, Ok items <-> SET tickets, Full/Closed items leave no SET, SKIP carries no payload"},
     "C02": {"engines": [ENGINE], "assumptions": _ASSUME, "engine_info": _INFO,
